@@ -273,11 +273,10 @@ func (s *Server) Account(frame []byte) {
 		if t == reqT+1 {
 			delete(s.fids, f)
 		}
-		// An Rlerror to Tclunk/Tremove: by protocol the fid is gone anyway;
-		// the client "tosses it away" and never reuses it, which is safe.
-		if t == wire.Rlerror {
-			delete(s.fids, f)
-		}
+		// An Rlerror to Tclunk/Tremove is no confirmation: the monitor keeps
+		// the fid as bound (a conforming server has dropped it all the same;
+		// the client tosses the number away and never reuses it, which is
+		// safe under either reading).
 	}
 }
 
